@@ -88,6 +88,16 @@ class CFG:
                     st.append(j)
         return seen
 
+    def inside(self, node: Node, loop_stmt) -> bool:
+        """is ``node`` (lexically) inside the body of ``loop_stmt``?"""
+        l = node.loop
+        lp = getattr(self, "loop_parent", {})
+        while l is not None:
+            if l is loop_stmt:
+                return True
+            l = lp.get(id(l))
+        return False
+
     def dump(self) -> str:
         out = []
         for n in self.nodes:
@@ -135,6 +145,7 @@ class Builder:
 
     def build(self, fnode, name="") -> CFG:
         self.g = CFG(name)
+        self.g.loop_parent = {}
         body = fnode.body if not isinstance(fnode, ast.Lambda) else [ast.Return(value=fnode.body)]
         start = self.g.new("join", note="body")
         self.g.edge(self.g.entry, start)
@@ -218,6 +229,7 @@ class Builder:
             head = self._new("for", s, frame, stmt=s)
             self._connect(preds, head)
             after = self._new("join", None, frame, stmt=s, note="after-for")
+            self.g.loop_parent[id(s)] = frame.loop
             inner = _Frame(after, head, frame.handlers, frame.finals, loop=s)
             bj = self._new("join", None, inner, stmt=s, note="for-body")
             g.edge(head, bj, "iter")
@@ -235,6 +247,7 @@ class Builder:
             head = self._new("join", None, frame, stmt=s, note="while-head")
             self._connect(preds, head)
             after = self._new("join", None, frame, stmt=s, note="after-while")
+            self.g.loop_parent[id(s)] = frame.loop
             inner = _Frame(after, head, frame.handlers, frame.finals, loop=s)
             saved = frame
             t, f = self._cond(s.test, [head], inner, s)
